@@ -105,6 +105,8 @@ class State:
         s.exact = self.exact
         s.alias = dict(self.alias)
         s.borrowed = set(self.borrowed)
+        if hasattr(self, "closures"):
+            s.closures = self.closures
         return s
 
     def assume(self, c):
@@ -158,6 +160,7 @@ class Engine:
         self.repo = repo
         self.registry = registry  # name -> Contract   ("shape_to_strides", "MapSpec.external_indices")
         self.feas_ms = feasibility_ms
+        self._sink_marks: dict = {}
         self.base_axioms: list = []
         self.pure_fns: dict[str, z3.FuncDeclRef] = {}
 
@@ -315,6 +318,47 @@ class Engine:
         if m is None:
             raise Unsupported(f"statement {type(node).__name__}", node)
         return m(node, st)
+
+    def s_FunctionDef(self, node, st):
+        """A nested helper `def f(a, b): <assignments>; return <expr>` (no branching, no loops): remembered and inlined
+        where it is called.  Anything else is outside the subset."""
+        body = [b for b in node.body if not (isinstance(b, ast.Expr) and isinstance(b.value, ast.Constant))]
+        ok = body and isinstance(body[-1], ast.Return) and body[-1].value is not None and \
+            all(isinstance(b, (ast.Assign, ast.AnnAssign)) for b in body[:-1]) and not node.decorator_list and \
+            not node.args.vararg and not node.args.kwarg and not node.args.kwonlyargs and not node.args.defaults
+        if not ok:
+            raise Unsupported("nested function definition (only straight-line helpers are inlined)", node)
+        st.closures = dict(getattr(st, "closures", {}))
+        st.closures[node.name] = (node, body)
+        return [(st, None)]
+
+    def _inline_closure(self, name: str, call: ast.Call, st: State):
+        node, body = st.closures[name]
+        params = [a.arg for a in node.args.args]
+        if call.keywords or len(call.args) != len(params) or any(isinstance(a, ast.Starred) for a in call.args):
+            raise Unsupported("call of a nested helper with other than plain positional arguments", call)
+        args = [self.eval(a, st) for a in call.args]
+        saved = {p_: st.env.get(p_) for p_ in params}
+        assigned = {t.id for b in body[:-1] for t in (b.targets if isinstance(b, ast.Assign) else [b.target])
+                    if isinstance(t, ast.Name)}
+        saved.update({n_: st.env.get(n_) for n_ in assigned})
+        try:
+            for p_, v in zip(params, args):
+                st.env[p_] = v
+            for b in body[:-1]:
+                val = self.eval(b.value, st)
+                tgts = b.targets if isinstance(b, ast.Assign) else [b.target]
+                for t in tgts:
+                    if not isinstance(t, ast.Name):
+                        raise Unsupported("nested helper assigning to a non-local target", b)
+                    st.env[t.id] = val
+            return self.eval(body[-1].value, st)
+        finally:  # the helper's parameters and locals do not leak into the caller's scope
+            for n_, v in saved.items():
+                if v is None:
+                    st.env.pop(n_, None)
+                else:
+                    st.env[n_] = v
 
     def s_ImportFrom(self, node, st):
         return [(st, None)]  # (names are resolved through the contract registry, not through imports)
@@ -828,6 +872,21 @@ class Engine:
             return
         if isinstance(tgt, (ast.Tuple, ast.List)):
             if any(isinstance(e, ast.Starred) for e in tgt.elts):
+                # `first, *rest = seq`: ValueError on an empty sequence; rest = seq[1:]
+                if len(tgt.elts) == 2 and isinstance(tgt.elts[1], ast.Starred) and isinstance(v.ty, TSeq):
+                    ty = v.ty
+                    n = ty.len(v.t)
+                    self.raise_if(st, n < 1, "ValueError", getattr(node, "lineno", None))
+                    self.assign(tgt.elts[0], Val(ty.elem, z3.Select(ty.arr(v.t), 0)), st, node)
+                    rest = ty.fresh("rest")
+                    i = z3.Int(fresh_name("ri"))
+                    ri = z3.Select(ty.arr(rest.t), i)
+                    st.assume(ty.len(rest.t) == n - 1)
+                    st.assume(z3.ForAll([i], z3.Implies(z3.And(0 <= i, i < n - 1), ri == z3.Select(ty.arr(v.t), i + 1)),
+                                        patterns=[ri]))
+                    rest.mut = True
+                    self.assign(tgt.elts[1].value, rest, st, node)
+                    return
                 raise Unsupported("starred assignment", node)
             if isinstance(v.ty, TTuple) and len(v.t) == len(tgt.elts):
                 for t, x in zip(tgt.elts, v.t):
@@ -1516,8 +1575,10 @@ class Engine:
             else:
                 e = Val(e.ty, lift(e.t), e.mut)
         rng = z3.And(0 <= ic, ic < n)
-        for cnd, exc, line in sink:
-            self.do_raise_q(st, z3.And(rng, cnd), exc, line)
+        marks = self._sink_marks.pop(id(sink), [])
+        for q_, (cnd, exc, line) in enumerate(sink):
+            known = extra[:max(0, marks[q_] - len(st.pc))] if q_ < len(marks) else []
+            self.do_raise_q(st, z3.And(rng, *known, cnd), exc, line)
             j = z3.Int(fresh_name("cj"))
             st.assume(z3.ForAll([j], z3.Implies(z3.And(0 <= j, j < n), z3.Not(z3.substitute(cnd, (ic, j))))))
         for h in extra:
@@ -1528,6 +1589,9 @@ class Engine:
     def do_raise_q(self, st, cond, exc, line):
         if st.qctx:
             st.qctx[-1].append((cond, exc, line))
+            # how many assumptions had been made in the body when this raise point was reached: they (and only they)
+            # are known to hold for the element that raises
+            self._sink_marks.setdefault(id(st.qctx[-1]), []).append(len(st.pc))
         else:
             self.do_raise(st, exc, line, cond)
 
@@ -1712,6 +1776,8 @@ class Engine:
             b = getattr(self, "b_" + f.id, None)
             if b is not None and f.id not in st.env:
                 return b(node, st, hint)
+            if f.id in getattr(st, "closures", {}):
+                return self._inline_closure(f.id, node, st)
             if f.id in self.registry:
                 args = [self.eval(a, st) for a in node.args]
                 kw = self._kwargs(node, st)
